@@ -9,6 +9,7 @@ R4  update_system_force subtracts the previously applied ABF force exactly when 
     applied forces itself nor reports same-step total forces
 R6  the gradient grid and the count grid it normalises by have one shape (shared with C15-R8)
 R7  the bin of a value is found by rounding down (shared with C15-R9)
+R8  what a bias takes off the one-step-late total force is the force it sent
 """
 from . import expr as X
 from . import cond as C
@@ -115,13 +116,16 @@ def r4(F, rep):
         raise AnalysisBroken("update_system_force: assignments not found")
     for w, t in ws:
         rhs = X.kids(w)[1]
-        subtracts = X.mentions(rhs, lambda x: x["k"] == "MemberExpr" and x.get("n") == "colvar_forces")
+        # a subtraction of one of the bias's own force arrays (which one it must be is C04-R8)
+        top = X.strip(rhs)
+        subtracts = top["k"] in ("BinaryOperator", "CXXOperatorCallExpr") and top.get("op") == "-" and X.mentions(
+            rhs, lambda x: x["k"] == "MemberExpr" and x.get("dk") == "Field" and "colvar_forces" in (x.get("n") or ""))
         facts, gs = C.guard_facts(f, w, res)
         not_sub = any(t2[0] == "false" and "f_cv_subtract_applied_force" in t2[1] for t2 in facts)
         not_cur = any(t2[0] == "false" and "f_cv_total_force_current_step" in t2[1] for t2 in facts)
         if subtracts:
             ok = not_sub and not_cur
-            what = "the branch that subtracts colvar_forces is taken only when both features are off"
+            what = "the branch that subtracts the bias force is taken only when both features are off"
         else:
             ok = not (not_sub and not_cur)
             what = "the branch that takes the total force as is is not the both-features-off branch"
@@ -176,7 +180,70 @@ def r7(F, rep):
     r9(F, rep, "C04-R7")
 
 
+def r8(F, rep, rid="C04-R8"):
+    rep.rule(rid, "what a bias takes off the one-step-late total force is the force it sent: in communicate_forces() the "
+                  "member that remembers the force of this step is assigned the product handed to add_bias_force(), "
+                  "time_step_factor apart (same factors, the scaling factor of scaledBiasingForce included), and wherever a "
+                  "bias subtracts one of its own force members from a variable's total_force() it is that remembered "
+                  "member, never the live force array")
+    from .rules_c01 import product_factors
+    from .rules_c10 import lvalue_writes, member_root
+    f = F.one("colvarbias::communicate_forces")
+    res = X.const_locals(f)
+    adds = [c for c in X.calls(f) if X.callee_name(c) in ("add_bias_force", "add_bias_force_actual_value")]
+    if not adds:
+        raise AnalysisBroken("%s: communicate_forces() hands no force to the variables" % rid)
+
+    def fkeys(n):
+        return sorted(k for k in (X.re_strip(X.key(x, f, res)) for x in product_factors(n, f, res)) if k != "this.time_step_factor" and k not in ("1", "1.0"))
+    sent = {tuple(fkeys(X.call_args(c)[0])) for c in adds}
+    live = None
+    for c in adds:
+        for x in product_factors(X.call_args(c)[0], f, res):
+            mr = member_root(x)
+            if mr is not None and x["k"] in ("CXXOperatorCallExpr",) and x.get("op") == "[]":
+                live = mr["q"]
+    mem = []
+    for w, t in lvalue_writes(f):
+        mr = member_root(t)
+        ts = X.strip(t)
+        if mr is None or w.get("op") != "=" or not (ts["k"] == "CXXOperatorCallExpr" and ts.get("op") == "[]") or mr["q"] == live:
+            continue
+        rhs = X.kids(w)[1] if w["k"] == "BinaryOperator" else X.call_args(w)[1]
+        if live and any(member_root(x) is not None and member_root(x)["q"] == live for x in product_factors(rhs, f, res)):
+            mem.append((w, mr["q"], tuple(fkeys(rhs))))
+    if live is None or not mem:
+        raise AnalysisBroken("%s: no member remembers the force sent by communicate_forces() (previous_colvar_forces expected)" % rid)
+    for w, q, fk in mem:
+        ok = len(sent) == 1 and fk in sent
+        rep.add(rid, "communicate_forces|%s" % q.split("::")[-1], f.loc(w),
+                "communicate_forces() remembers `%s` = %s; it sends %s (time_step_factor apart)" % (q.split("::")[-1], " * ".join(fk), " | ".join(" * ".join(x) for x in sorted(sent))), ok,
+                detail="the difference (a scaling factor) stays in every force sample taken from a one-step-late total force: the stored "
+                       "mean force is off by (factor - 1) times the bias force", func=f.q)
+    memq = {q for w, q, fk in mem}
+    n = 0
+    for g in sorted(F.funcs.values(), key=lambda g: g.q):
+        if "/src/" not in g.file or g.body is None or not g.cls or "colvarbias" not in g.cls:
+            continue
+        for b in g.walk():
+            if not ((b["k"] == "BinaryOperator" and b.get("op") == "-") or (b["k"] == "CXXOperatorCallExpr" and b.get("op") == "-")):
+                continue
+            ops = X.kids(b) if b["k"] == "BinaryOperator" else X.call_args(b)
+            if len(ops) != 2 or "total_force()" not in X.key(ops[0], g):
+                continue
+            used = {x["q"] for x in g.walk(ops[1]) if x["k"] == "MemberExpr" and x.get("dk") == "Field" and x.get("q") in (memq | {live})}
+            if not used:
+                continue
+            n += 1
+            ok = live not in used
+            rep.add(rid, "%s|subtracts" % g.q, g.loc(b), "%s takes %s off total_force()" % (g.q, sorted(u.split("::")[-1] for u in used)), ok,
+                    detail="the live force array is the unscaled force of the current evaluation, not what was sent at the step the total force belongs to", func=g.q)
+    if n < 2:
+        raise AnalysisBroken("%s: only %d subtraction(s) of a bias's own force from total_force() found (ABF and the TI estimator expected)" % (rid, n))
+
+
 def run(F, rep, tier):
+    r8(F, rep)
     r6(F, rep)
     r7(F, rep)
     r1(F, rep)
